@@ -9,8 +9,9 @@ behaviour is replayed on the real Molecular_Dynamics_Basic.run (stub electronic 
 springs, dyadic masses): coordinates, velocities, forces, Ek, Ep, T rows of the HDF5 output must equal
 the exact rationals to 1e-11 for their own step label (unit constants are the driver's own literals).
 Monitored on the real potential-energy surface (H2O and padded batches, scf_eps 1e-11, density reuse on/off): time reversal
-to 1e-7, trajectory error and total-energy fluctuation fall by about 4 when the step is halved (0.4 / 0.2 / 0.1 fs), no drift
-beyond the fluctuation."""
+to 1e-7, end-point differences and total-energy fluctuation fall by 4 (within [3.5, 4.6] / [3.3, 4.8]) when the step is halved
+(0.4 / 0.2 / 0.1 / 0.05 fs), no drift beyond the fluctuation - on generically oriented molecules; molecules with a bond along the x
+axis converge only at first order (known finding: the local-frame rotation snaps directions near the -x axis)."""
 
 from harness import common
 
@@ -20,8 +21,10 @@ PROP = "C08"
 
 
 def real_pes(case):
-    """Real electronic structure (H2O / padded H2O+H2, scf_eps 1e-11): time reversal, dt^2 scaling of the trajectory error and of
-    the total-energy fluctuation, no drift beyond the fluctuation."""
+    """Real electronic structure (scf_eps 1e-11): time reversal, dt^2 convergence of the trajectory (successive differences of the
+    end point under step halving) and of the total-energy fluctuation, no drift beyond the fluctuation.  case["rotate"]: the
+    molecule is first turned by a generic rotation (no bond along a coordinate axis)."""
+    import math
     import os
 
     import h5py
@@ -35,14 +38,18 @@ def real_pes(case):
     wd = case["workdir"]
     os.makedirs(wd, exist_ok=True)
     g = torch.Generator().manual_seed(5)
+    a, b, c = 0.7, 0.4, 1.1
+    Rz = torch.tensor([[math.cos(a), -math.sin(a), 0], [math.sin(a), math.cos(a), 0], [0, 0, 1]], dtype=torch.float64)
+    Ry = torch.tensor([[math.cos(b), 0, math.sin(b)], [0, 1, 0], [-math.sin(b), 0, math.cos(b)]], dtype=torch.float64)
+    Rx = torch.tensor([[1, 0, 0], [0, math.cos(c), -math.sin(c)], [0, math.sin(c), math.cos(c)]], dtype=torch.float64)
+    R = Rz @ Ry @ Rx if case.get("rotate") else torch.eye(3, dtype=torch.float64)
 
-    def run(tag, dt, steps, x0=None, v0=None):
-        c = dict(engine="basic", system=case["system"], molid=[0], steps=steps, cad=dict(data=1, coordinates=1, velocities=1), xyz=0, ckpt=0, print=0, dt=dt, temp=0.0,
-                 params={"scf_eps": 1.0e-11}, reuse_P=case["reuse_P"])
-        md, mol, rk = mdlib.build_md(c, os.path.join(wd, tag))
-        if x0 is not None:
-            with torch.no_grad():
-                mol.coordinates.copy_(x0)
+    def run(tag, dt, steps, x0, v0):
+        cc = dict(engine="basic", system=case["system"], molid=[0], steps=steps, cad=dict(data=1, coordinates=1, velocities=1), xyz=0, ckpt=0, print=0, dt=dt, temp=0.0,
+                  params={"scf_eps": 1.0e-11}, reuse_P=case["reuse_P"])
+        md, mol, rk = mdlib.build_md(cc, os.path.join(wd, tag))
+        with torch.no_grad():
+            mol.coordinates.copy_(x0)
         mol.velocities = v0.clone()
         md.run(mol, **rk)
         with h5py.File(os.path.join(wd, tag + ".0.h5")) as f:
@@ -51,24 +58,22 @@ def real_pes(case):
 
     md, mol, rk = mdlib.build_md(dict(engine="basic", system=case["system"], molid=[0], steps=1, cad={}, params={}), os.path.join(wd, "x"))
     real = (mol.species > 0).unsqueeze(-1).to(torch.float64)
-    xs = mol.coordinates.detach().clone()
+    xs = (mol.coordinates.detach() @ R.T).clone()
     v0 = 0.012 * (torch.rand(xs.shape, generator=g, dtype=torch.float64) - 0.5) * real
     out = {}
-    # time reversal
     x1, v1, _ = run("fwd", 0.4, 8, xs, v0)
     x2, v2, _ = run("bwd", 0.4, 8, x1, -v1)
     out["reversal_dx"] = float((x2 - xs).abs().max())
     out["reversal_dv"] = float((v2 + v0).abs().max())
-    # dt^2 scaling over the same physical time
     T = 3.2
-    ref, _, _ = run("ref", 0.025, int(round(T / 0.025)), xs, v0)
-    errs, flucts, drifts = {}, {}, {}
-    for dt in (0.4, 0.2, 0.1):
+    ends, flucts, drifts = {}, {}, {}
+    for dt in (0.4, 0.2, 0.1, 0.05):
         xf, _, E = run("dt%g" % dt, dt, int(round(T / dt)), xs, v0)
-        errs["%g" % dt] = float((xf - ref).abs().max())
+        ends[dt] = xf
         flucts["%g" % dt] = float(np.abs(E - E[0]).max())
         drifts["%g" % dt] = float(abs(E[-1] - E[0]))
-    out.update(err=errs, fluct=flucts, drift=drifts)
+    out["diff"] = [float((ends[p] - ends[q]).abs().max()) for p, q in ((0.4, 0.2), (0.2, 0.1), (0.1, 0.05))]
+    out.update(fluct=flucts, drift=drifts)
     return out
 
 
@@ -111,7 +116,9 @@ def main(tier):
                 if len(samples) < 2:
                     samples.append({"masses": c["m"], "field": c["g"], "x0": c["hist"][0]["x"], "v0": c["hist"][0]["v"], "x_last_exact": c["hist"][-1]})
         # ---- monitored on the real potential-energy surface ---------------------------------------------------------
-        pcases = [dict(system="h2o", reuse_P=True), dict(system="h2o_h2", reuse_P=False)] + ([dict(system="nh3_h2o", reuse_P=True), dict(system="h2o", reuse_P=False)] if tier == "thorough" else [])
+        pcases = [dict(system="h2o", reuse_P=True, rotate=True), dict(system="h2o_h2", reuse_P=False, rotate=True), dict(system="h2o", reuse_P=True, rotate=False)]
+        if tier == "thorough":
+            pcases += [dict(system="nh3_h2o", reuse_P=True, rotate=True), dict(system="h2co", reuse_P=False, rotate=True), dict(system="nh3_h2o", reuse_P=False, rotate=False)]
         for n, c in enumerate(pcases):
             c["workdir"] = __import__("os").path.join(scratch, "pes_%d" % n)
         pres = common.run_forked(pcases, real_pes, timeout=1800)
@@ -121,16 +128,17 @@ def main(tier):
                 rep.machinery("real-PES monitor failed: " + str(rr.get("error")) + str(rr.get("tb"))[-300:])
                 continue
             o = rr["result"]
-            r1, r2 = o["err"]["0.4"] / o["err"]["0.2"], o["err"]["0.2"] / o["err"]["0.1"]
+            r1, r2 = o["diff"][0] / o["diff"][1], o["diff"][1] / o["diff"][2]
             f1, f2 = o["fluct"]["0.4"] / o["fluct"]["0.2"], o["fluct"]["0.2"] / o["fluct"]["0.1"]
-            info = {"system": c["system"], "reuse_P": c["reuse_P"], "reversal_dx": o["reversal_dx"], "trajectory_error_ratios": [r1, r2], "energy_fluctuation_ratios": [f1, f2], "fluct": o["fluct"], "drift": o["drift"]}
+            info = {"system": c["system"], "reuse_P": c["reuse_P"], "generic_orientation": c["rotate"], "reversal_dx": o["reversal_dx"], "end_point_differences": o["diff"], "trajectory_ratios": [r1, r2],
+                    "energy_fluctuation_ratios": [f1, f2], "fluct": o["fluct"], "drift": o["drift"]}
             pes_info.append(info)
-            fields = dict(system=c["system"], reuse_P=c["reuse_P"], variant="real_pes")
+            fields = dict(system=c["system"], reuse_P=c["reuse_P"], variant="real_pes", axis_aligned_bond=not c["rotate"])
             if o["reversal_dx"] > 1.0e-7 or o["reversal_dv"] > 1.0e-7:
                 rep.violation("trajectory_not_time_reversible", info, what="reversal", **fields)
-            if not (2.8 <= r1 <= 5.5 and 2.8 <= r2 <= 5.5):
+            if not (3.5 <= r1 <= 4.6 and 3.5 <= r2 <= 4.6):
                 rep.violation("trajectory_error_not_second_order", info, what="order", **fields)
-            if not (2.5 <= f1 <= 6.5 and 2.5 <= f2 <= 6.5):
+            if not (3.3 <= f1 <= 4.8 and 3.3 <= f2 <= 4.8):
                 rep.violation("energy_fluctuation_not_second_order", info, what="fluctuation", **fields)
             if any(o["drift"][dt] > 1.5 * o["fluct"][dt] + 1e-9 for dt in o["drift"]):
                 rep.violation("energy_drift_beyond_fluctuation", info, what="drift", **fields)
